@@ -42,6 +42,43 @@ struct Case {
     take: Option<u16>,
     /// n is mapped into 1..=candidates+2 (true) or 1..=count+2 (false)
     take_rel: bool,
+    /// the builder calls, in order (any number of each, any order); `None` (older replay files) =
+    /// one call per criterion from the fields above in the fixed order class, policy, except,
+    /// filter, quota
+    #[serde(default)]
+    mods: Option<Vec<Mod>>,
+    /// pin the calling thread (on the fake hardware) to these processors before building
+    #[serde(default)]
+    pin_pick: Option<Vec<u16>>,
+}
+
+/// One builder call. Class and region-policy calls overwrite earlier ones (last call wins);
+/// exclusions, filters and the thread-availability restriction accumulate; the quota flag sticks.
+#[derive(Debug, Clone, Serialize, Deserialize)]
+enum Mod {
+    Performance,
+    Efficiency,
+    /// 1 same, 2 different, 3 prefer-same, 4 prefer-different
+    Policy(u8),
+    Except(Vec<u16>),
+    Filter(u64),
+    EnforceQuota,
+    AvailableForThread,
+}
+
+fn mods_strategy() -> impl Strategy<Value = Vec<Mod>> {
+    let m = prop_oneof![
+        2 => Just(Mod::Performance),
+        2 => Just(Mod::Efficiency),
+        4 => (1u8..=4).prop_map(Mod::Policy),
+        2 => prop::collection::vec(any::<u16>(), 0..6).prop_map(Mod::Except),
+        1 => prop::collection::vec(any::<u16>(), 0..40).prop_map(Mod::Except),
+        2 => any::<u64>().prop_map(Mod::Filter),
+        2 => (any::<u64>(), any::<u64>()).prop_map(|(a, b)| Mod::Filter(a | b)),
+        2 => Just(Mod::EnforceQuota),
+        1 => Just(Mod::AvailableForThread),
+    ];
+    prop::collection::vec(m, 0..8)
 }
 
 fn topo_strategy() -> impl Strategy<Value = (Vec<Proc>, Option<f64>)> {
@@ -109,9 +146,10 @@ fn case_strategy() -> impl Strategy<Value = Case> {
         any::<bool>(),
         prop_oneof![1 => Just(None), 4 => any::<u16>().prop_map(Some)],
         prop::bool::weighted(0.75),
+        (mods_strategy(), prop::option::weighted(0.3, prop::collection::vec(any::<u16>(), 1..12))),
     )
         .prop_map(
-            |((procs, quota), source_kind, source_pick, class, policy, except, filter_mask, enforce_quota, take, take_rel)| Case {
+            |((procs, quota), source_kind, source_pick, class, policy, except, filter_mask, enforce_quota, take, take_rel, (mods, pin_pick))| Case {
                 procs,
                 quota,
                 source_kind,
@@ -123,6 +161,8 @@ fn case_strategy() -> impl Strategy<Value = Case> {
                 enforce_quota,
                 take,
                 take_rel,
+                mods: Some(mods),
+                pin_pick,
             },
         )
 }
@@ -209,9 +249,78 @@ fn check(case: &Case, ctx: &mut Ctx, repeats: u32) -> Verdict {
         }
     };
 
+    // --- the builder calls and what they mean
+    let mods: Vec<Mod> = case.mods.clone().unwrap_or_else(|| {
+        let mut v = Vec::new();
+        match case.class {
+            0 => {}
+            1 => v.push(Mod::Performance),
+            _ => v.push(Mod::Efficiency),
+        }
+        if case.policy > 0 {
+            v.push(Mod::Policy(case.policy));
+        }
+        if !case.except.is_empty() {
+            v.push(Mod::Except(case.except.clone()));
+        }
+        if let Some(m) = case.filter_mask {
+            v.push(Mod::Filter(m));
+        }
+        if case.enforce_quota {
+            v.push(Mod::EnforceQuota);
+        }
+        v
+    });
+    let mut eff_class = 0u8;
+    let mut eff_policy = 0u8;
+    let mut except_ids: BTreeSet<u32> = BTreeSet::new();
+    let mut filters: Vec<u64> = Vec::new();
+    let mut enforce_quota = false;
+    let mut avail_only = false;
+    for m in &mods {
+        match m {
+            Mod::Performance => eff_class = 1,
+            Mod::Efficiency => eff_class = 2,
+            Mod::Policy(p) => eff_policy = (*p).clamp(1, 4),
+            Mod::Except(raws) => except_ids.extend(raws.iter().map(|r| case.procs[pick_index(*r, case.procs.len())].id)),
+            Mod::Filter(f) => filters.push(*f),
+            Mod::EnforceQuota => enforce_quota = true,
+            Mod::AvailableForThread => avail_only = true,
+        }
+    }
+    if mods.len() >= 2 {
+        ctx.classify("builder-calls>=2");
+    }
+    {
+        let classes = mods.iter().filter(|m| matches!(m, Mod::Performance | Mod::Efficiency)).count();
+        let policies = mods.iter().filter(|m| matches!(m, Mod::Policy(_))).count();
+        if classes >= 2 || policies >= 2 {
+            ctx.classify("criterion-overwritten-by-later-call");
+        }
+        let first_filter = mods.iter().position(|m| matches!(m, Mod::Filter(_) | Mod::AvailableForThread));
+        let last_class = mods.iter().rposition(|m| matches!(m, Mod::Performance | Mod::Efficiency));
+        if first_filter.zip(last_class).is_some_and(|(f, c)| f < c) {
+            ctx.classify("class-selector-after-filter");
+        }
+        if filters.len() >= 2 {
+            ctx.classify(">=2-filters");
+        }
+    }
+    // the calling thread's pin on this fake hardware (this harness thread is used for every case;
+    // pin state is per hardware instance, and every case builds its own)
+    let pinned_ids: Option<BTreeSet<u32>> = case.pin_pick.as_ref().map(|picks| {
+        let idxs: BTreeSet<usize> = picks.iter().map(|r| pick_index(*r, case.procs.len())).collect();
+        let chosen: Vec<Processor> = all.processors().iter().filter(|p| idxs.contains(&by_id[&p.id()].0)).cloned().collect();
+        let set = all.to_builder().take_exact(NonEmpty::from_vec(chosen).expect("at least one picked"));
+        set.pin_current_thread_to();
+        ids_of(&set).into_iter().collect()
+    });
+    if avail_only {
+        ctx.classify(if pinned_ids.is_some() { "available-for-thread:pinned" } else { "available-for-thread:unpinned" });
+    }
+
     // --- independent candidate computation
-    let except_ids: BTreeSet<u32> = case.except.iter().map(|r| case.procs[pick_index(*r, case.procs.len())].id).collect();
-    let passes_filter = |idx: usize| case.filter_mask.is_none_or(|m| (m >> (idx % 64)) & 1 == 1);
+    let passes_filter = |idx: usize| filters.iter().all(|m| (m >> (idx % 64)) & 1 == 1);
     let cand: BTreeSet<u32> = source_ids
         .iter()
         .copied()
@@ -219,7 +328,8 @@ fn check(case: &Case, ctx: &mut Ctx, repeats: u32) -> Verdict {
             let (idx, p) = by_id[id];
             !except_ids.contains(id)
                 && passes_filter(idx)
-                && match case.class {
+                && (!avail_only || pinned_ids.as_ref().is_none_or(|s| s.contains(id)))
+                && match eff_class {
                     0 => true,
                     1 => !p.eff,
                     _ => p.eff,
@@ -233,7 +343,7 @@ fn check(case: &Case, ctx: &mut Ctx, repeats: u32) -> Verdict {
     let mut sizes_desc: Vec<usize> = region_sizes.values().copied().collect();
     sizes_desc.sort_unstable_by(|a, b| b.cmp(a));
     let nregions = sizes_desc.len();
-    let policy = POLICY[case.policy as usize];
+    let policy = POLICY[eff_policy as usize];
     ctx.classify(&format!("policy:{policy}"));
     ctx.classify(match case.source_kind {
         0 => "source:all",
@@ -264,28 +374,28 @@ fn check(case: &Case, ctx: &mut Ctx, repeats: u32) -> Verdict {
 
     for _rep in 0..repeats {
         let mut b = source.to_builder();
-        b = match case.class {
-            0 => b,
-            1 => b.performance_processors_only(),
-            _ => b.efficiency_processors_only(),
-        };
-        b = match case.policy {
-            0 => b,
-            1 => b.same_memory_region(),
-            2 => b.different_memory_regions(),
-            3 => b.prefer_same_memory_region(),
-            _ => b.prefer_different_memory_regions(),
-        };
-        if !case.except.is_empty() {
-            let ex: Vec<Processor> = all.processors().iter().filter(|p| except_ids.contains(&p.id())).cloned().collect();
-            b = b.except(ex.iter());
-        }
-        if let Some(m) = case.filter_mask {
-            let idx_of: BTreeMap<u32, usize> = by_id.iter().map(|(k, v)| (*k, v.0)).collect();
-            b = b.filter(move |p| (m >> (idx_of[&p.id()] % 64)) & 1 == 1);
-        }
-        if case.enforce_quota {
-            b = b.enforce_resource_quota();
+        let idx_of: BTreeMap<u32, usize> = by_id.iter().map(|(k, v)| (*k, v.0)).collect();
+        for m in &mods {
+            b = match m {
+                Mod::Performance => b.performance_processors_only(),
+                Mod::Efficiency => b.efficiency_processors_only(),
+                Mod::Policy(1) => b.same_memory_region(),
+                Mod::Policy(2) => b.different_memory_regions(),
+                Mod::Policy(3) => b.prefer_same_memory_region(),
+                Mod::Policy(_) => b.prefer_different_memory_regions(),
+                Mod::Except(raws) => {
+                    let these: BTreeSet<u32> = raws.iter().map(|r| case.procs[pick_index(*r, case.procs.len())].id).collect();
+                    let ex: Vec<Processor> = all.processors().iter().filter(|p| these.contains(&p.id())).cloned().collect();
+                    b.except(ex.iter())
+                }
+                Mod::Filter(f) => {
+                    let f = *f;
+                    let idx_of = &idx_of;
+                    b.filter(move |p| (f >> (idx_of[&p.id()] % 64)) & 1 == 1)
+                }
+                Mod::EnforceQuota => b.enforce_resource_quota(),
+                Mod::AvailableForThread => b.where_available_for_current_thread(),
+            };
         }
 
         let result = match n_req {
@@ -326,10 +436,10 @@ fn check(case: &Case, ctx: &mut Ctx, repeats: u32) -> Verdict {
                         fail!(format!("C09/take/{policy}/returned_more_than_n"), "take({n}) returned {} processors {:?}; region sizes {:?}", got.len(), got, sizes_desc);
                     }
                     ensure!(got.len() == n, format!("C09/take/{policy}/returned_fewer_than_n"), "take({n}) returned {} processors {:?}", got.len(), got);
-                    if case.enforce_quota {
+                    if enforce_quota {
                         ensure!(n <= quota_limit, format!("C09/take/{policy}/quota-exceeded"), "take({n}) succeeded with quota {:?} (limit {quota_limit})", case.quota);
                     }
-                    match case.policy {
+                    match eff_policy {
                         1 => ensure!(spanned.len() == 1, "C09/take/require-same/spans-regions", "take({n}) same-region spans {:?}", spanned),
                         2 => ensure!(spanned.len() == n, "C09/take/require-different/shares-region", "take({n}) different-regions spans only {:?}", spanned),
                         3 => {
@@ -356,8 +466,8 @@ fn check(case: &Case, ctx: &mut Ctx, repeats: u32) -> Verdict {
                     }
                 } else {
                     // take_all: a largest qualifying set, cut down to the quota
-                    let limit = if case.enforce_quota { quota_limit } else { usize::MAX };
-                    match case.policy {
+                    let limit = if enforce_quota { quota_limit } else { usize::MAX };
+                    match eff_policy {
                         1 => {
                             ensure!(spanned.len() == 1, "C09/take_all/require-same/spans-regions", "spans {:?}", spanned);
                             let r = *spanned.iter().next().expect("one");
@@ -391,8 +501,8 @@ fn check(case: &Case, ctx: &mut Ctx, repeats: u32) -> Verdict {
                 }
             }
             (None, Some(n)) => {
-                let quota_forbids = case.enforce_quota && n > quota_limit;
-                let satisfiable = match case.policy {
+                let quota_forbids = enforce_quota && n > quota_limit;
+                let satisfiable = match eff_policy {
                     1 => sizes_desc.first().is_some_and(|s| *s >= n),
                     2 => nregions >= n,
                     _ => cand.len() >= n,
@@ -403,7 +513,7 @@ fn check(case: &Case, ctx: &mut Ctx, repeats: u32) -> Verdict {
                     "take({n}) returned None; candidates {} region sizes {:?} quota_limit {:?}",
                     cand.len(),
                     sizes_desc,
-                    case.enforce_quota.then_some(quota_limit)
+                    enforce_quota.then_some(quota_limit)
                 );
             }
             (None, None) => {
